@@ -160,6 +160,12 @@ static void PrCData(
     ChkIO(TargName);
 }
 
+/* Tektronix checksums are sums over the hex digits, not over the bytes */
+
+static unsigned NibbleSum(Byte Value) {
+    return (Value >> 4) + (Value & 15);
+}
+
 static void ProcessFile(char const* FileName, LongWord Offset) {
     FILE*    SrcFile;
     Word     TestID;
@@ -501,7 +507,8 @@ static void ProcessFile(char const* FileName, LongWord Offset) {
                     case eHexFormatTek:
                         errno = 0;
                         fprintf(TargFile, "/%04X%02X%02X", LoWord(ErgStart), Lo(TransLen),
-                                Lo(Lo(ErgStart) + Hi(ErgStart) + TransLen));
+                                Lo(NibbleSum(Lo(ErgStart)) + NibbleSum(Hi(ErgStart))
+                                   + NibbleSum(Lo(TransLen))));
                         ChkIO(TargName);
                         ChkSum = 0;
                         break;
@@ -631,6 +638,12 @@ static void ProcessFile(char const* FileName, LongWord Offset) {
                         ChkIO(TargName);
                         break;
                     case eHexFormatTek:
+                        ChkSum = 0;
+                        for (z = 0; z < (LongInt)TransLen; z++) {
+                            if ((MultiMode < 2) || (z % Gran == MultiMode - 2)) {
+                                ChkSum += NibbleSum(Buffer[z]);
+                            }
+                        }
                         errno = 0;
                         fprintf(TargFile, "%02X\n", Lo(ChkSum));
                         ChkIO(TargName);
